@@ -1,8 +1,143 @@
 /-
-C03 — property theorems (stub; see DESIGN.md §6).
+C03 — Kernel functions compute the published activation, match and learning rules.
+
+`ArtModel/Kernels.lean` *is* the published equations, one definition per
+equation; the correspondence (`kern` operations) ties each Python kernel
+function to its definition on reachable and arbitrary well-formed weights.  The
+theorems here pin the definitions to their published closed forms, give the
+decision table of the binary match test, and prove the statements about the
+derived geometry accessors (bounding box for any number of leading dimensions,
+cluster centre, shrink_clusters).
 -/
-import ArtModel.Basic
+import ArtProofs.Kernels
 
 namespace Art.C03
+
+set_option linter.unusedSectionVars false
+
+section Table
+variable {α : Type} [LinearOrder α]
+
+/-- The binary match test thresholds the match value against `rho` with the
+operator of the selected mode: `≥` for MT+, MT−, MT1; `>` for MT0, MT~; with the
+operands swapped for BayesianART (`inverted`). -/
+theorem match_bin_table (rho m : α) :
+    (passesScalar .plus false rho m = true ↔ m ≥ rho) ∧
+    (passesScalar .minus false rho m = true ↔ m ≥ rho) ∧
+    (passesScalar .one false rho m = true ↔ m ≥ rho) ∧
+    (passesScalar .zero false rho m = true ↔ m > rho) ∧
+    (passesScalar .tilde false rho m = true ↔ m > rho) ∧
+    (passesScalar .plus true rho m = true ↔ rho ≥ m) ∧
+    (passesScalar .minus true rho m = true ↔ rho ≥ m) ∧
+    (passesScalar .one true rho m = true ↔ rho ≥ m) ∧
+    (passesScalar .zero true rho m = true ↔ rho > m) ∧
+    (passesScalar .tilde true rho m = true ↔ rho > m) := by
+  simp [passesScalar, mtStrict]
+
+end Table
+
+section Field
+variable {α : Type} [Field α] [LinearOrder α] [IsStrictOrderedRing α]
+
+/-! ### Published closed forms (definitional) -/
+
+/-- Fuzzy ART: `T = |x ∧ w| / (alpha + |w|)`, `M = |x ∧ w| / d`, `w' = beta (x ∧ w) + (1 − beta) w`. -/
+theorem fuzzy_rules (alpha beta d : α) (x w : List α) :
+    fuzzyChoice alpha x w = vsum (vmin x w) / (alpha + vsum w) ∧
+    fuzzyMatch d x w = vsum (vmin x w) / d ∧
+    fuzzyUpdate beta x w = vadd (smul beta (vmin x w)) (smul (1 - beta) w) :=
+  ⟨rfl, rfl, rfl⟩
+
+/-- ART1: template AND and bottom-up scaling `L / (L − 1 + |t'|) · t'`. -/
+theorem art1_update_rule (L : α) (dim : Nat) (x w : List α) :
+    art1Update L dim x w =
+      smul (L / (L - 1 + vsum (band' x (w.drop dim)))) (band' x (w.drop dim)) ++ band' x (w.drop dim) := rfl
+
+/-- the top-down half of an updated ART1 weight is the AND of sample and old template -/
+theorem art1_template_and (L : α) (dim : Nat) (x w : List α) (hx : x.length = dim)
+    (hw : w.length = 2 * dim) :
+    (art1Update L dim x w).drop dim = band' x (w.drop dim) := by
+  unfold art1Update
+  have : (band' x (w.drop dim)).length = dim := by
+    simp [band', hx, hw]; omega
+  simp only
+  rw [List.drop_append_of_le_length (by simp [smul, this])]
+  simp [smul, this]
+
+/-- ART2-A: dot-product choice; the match value is the activation unless it falls
+below the uncommitted-node activation `alpha · Σx`, in which case it is −1. -/
+theorem art2_match_suppressed (alpha : α) (x w : List α) :
+    (dot x w < alpha * vsum x → art2Match alpha x w = -1) ∧
+    (¬ dot x w < alpha * vsum x → art2Match alpha x w = dot x w) := by
+  unfold art2Match
+  constructor
+  · intro h; simp [h]
+  · intro h; simp [h]
+
+/-! ### Bounding boxes, for any number of leading dimensions -/
+
+/-- `get_bounding_box(w, n)`: for every requested `i < n ≤ d` the reference point is
+`w[i]` and the width is `(1 − w[d+i]) − w[i]`, with `d = len(w)/2`. -/
+theorem bounding_box_agrees (w : List α) (d n i : Nat) (hw : w.length = 2 * d) (hn : n ≤ d) (hi : i < n) :
+    (fuzzyBBox w n).1[i]? = w[i]? ∧
+    (fuzzyBBox w n).2[i]? = some ((1 - w[d + i]'(by omega)) - w[i]'(by omega)) := by
+  have hd : w.length / 2 = d := by omega
+  unfold fuzzyBBox
+  simp only [hd]
+  constructor
+  · simp [List.getElem?_take, hi]
+  · have h1 : i < (w.take n).length := by simp; omega
+    have h2 : i < ((w.drop d).take n).length := by simp; omega
+    rw [List.getElem?_zipWith]
+    simp only [List.getElem?_take, hi, if_true, List.getElem?_drop]
+    rw [List.getElem?_eq_getElem (by omega), List.getElem?_eq_getElem (by omega)]
+
+/-! ### shrink_clusters: same centre, contained in the old box -/
+
+/-- one coordinate of `shrink_clusters`: lower corner `u`, complemented upper
+corner `vc = 1 − v`; both move by `ratio · width` with `width = (1 − vc) − u`. -/
+theorem shrink_coordinate (u vc r : α) (hr0 : 0 ≤ r) (hr : r ≤ 1 / (1 + 1)) (hbox : u ≤ 1 - vc) :
+    let width := (1 - vc) - u
+    let u' := u + r * width
+    let vc' := vc + r * width
+    -- same centre
+    (u' + (1 - vc')) / (1 + 1) = (u + (1 - vc)) / (1 + 1) ∧
+    -- contained in the old box, and still a box
+    u ≤ u' ∧ (1 - vc') ≤ (1 - vc) ∧ u' ≤ 1 - vc' := by
+  intro width u' vc'
+  have hw : 0 ≤ width := by simp only [width]; linarith
+  have h2 : (1:α) / (1 + 1) * (1 + 1) = 1 := by norm_num
+  refine ⟨by simp only [u', vc']; ring, ?_, ?_, ?_⟩
+  · simp only [u']; nlinarith
+  · simp only [vc']; nlinarith
+  · simp only [u', vc', width]
+    have : r * ((1 - vc) - u) ≤ 1 / (1 + 1) * ((1 - vc) - u) := by
+      apply mul_le_mul_of_nonneg_right hr; linarith
+    nlinarith
+
+/-! ### Hypersphere update: inside ⇒ unchanged; outside ⇒ `R' = R + beta/2 (dist − R)` -/
+
+theorem sphere_update_cases (β R dist : α) :
+    (dist ≤ R → R + β / (1 + 1) * (max R dist - R) = R) ∧
+    (R ≤ dist → R + β / (1 + 1) * (max R dist - R) = R + β / (1 + 1) * (dist - R)) ∧
+    (0 < dist → dist ≤ R → (1 - min R dist / dist) = 0) := by
+  refine ⟨?_, ?_, ?_⟩
+  · intro h; rw [max_eq_left h]; ring
+  · intro h; rw [max_eq_right h]
+  · intro hd h; rw [min_eq_right h, div_self (ne_of_gt hd)]; ring
+
+/-- Gaussian / Bayesian ART mean update is the running mean -/
+theorem gaussian_update_is_running_mean (n S x : α) (hn : 0 < n) :
+    (1 - 1 / (n + 1)) * (S / n) + 1 / (n + 1) * x = (S + x) / (n + 1) :=
+  running_mean_scalar n S x hn
+
+end Field
+
+/-! Non-vacuity over ℚ: the repaired bounding box of `w = [1/4, 1/2, 3/8, 1/8]`
+(box `[1/4, 5/8] × [1/2, 7/8]`) for one leading dimension has width `3/8`. -/
+example : fuzzyBBox [(1:ℚ)/4, 1/2, 3/8, 1/8] 1 = ([1/4], [3/8]) := by
+  norm_num [fuzzyBBox]
+example : fuzzyShrink ((1:ℚ)/4) [0, 0, 0, 0] = [1/4, 1/4, 1/4, 1/4] := by
+  norm_num [fuzzyShrink, smul, vadd]
 
 end Art.C03
